@@ -71,6 +71,24 @@ func VerifyFunc(p *Program, key string) (enc *Enc, err error) {
 	for _, cl := range fc.Requires {
 		f.assume(f.evalBool(cl.E, envEntry), "requires")
 	}
+	for _, ln := range fc.Apply {
+		var lm *Lemma
+		for _, x := range p.Cs.Lemmas {
+			if x.Name == ln {
+				lm = x
+			}
+		}
+		if lm == nil {
+			return nil, fmt.Errorf("%s: apply of unknown lemma %s", key, ln)
+		}
+		for _, u := range lm.Uses {
+			e.Uses[u] = true
+		}
+		e.addFact(True, f.evalBool(lm.E, envEntry), "lemma "+ln+" (its own obligation lemma."+ln+")")
+		if lm.Axiom {
+			e.Assumes["axiom "+ln+": "+lm.Text] = true
+		}
+	}
 	for _, cl := range fc.Assume {
 		f.assume(f.evalBool(cl.E, envEntry), "assume (listed)")
 		e.Assumes["assume clause in contract of "+key+": "+cl.Text] = true
@@ -234,6 +252,25 @@ func VerifyLemma(p *Program, lm *Lemma) (*Enc, error) {
 		f.st = NewState()
 		f.entryState = f.st
 		env := &Env{F: f, State: f.st, Old: f.st}
+		for _, ln := range lm.Apply {
+			var other *Lemma
+			for _, x := range p.Cs.Lemmas {
+				if x.Name == ln && x != lm {
+					other = x
+				}
+			}
+			if other == nil {
+				e.fail("lemma %s applies unknown lemma %s", lm.Name, ln)
+			}
+			if len(other.Apply) > 0 {
+				for _, a2 := range other.Apply {
+					if a2 == lm.Name {
+						e.fail("circular lemma application %s <-> %s", lm.Name, ln)
+					}
+				}
+			}
+			e.addFact(True, f.evalBool(other.E, env), "lemma "+ln+" (its own obligation)")
+		}
 		t := f.evalBool(lm.E, env)
 		o := &Obl{Name: "lemma." + lm.Name, Kind: "lemma", Func: "lemma." + lm.Name, Ord: e.tick(), Guard: True, Goal: t, Props: lm.Props, Where: lm.Where, Enc: e}
 		e.obls = append(e.obls, o)
